@@ -9,7 +9,7 @@
     linearisation events: [EIns t m k now] = thread t's call for message m with key k was
     answered "new" and recorded k at clock [now]; [EDup] = answered "duplicate";
     [ESweep c T clk ks] = cleaner c, at clock clk, ran cleanOut(T) and deleted exactly ks. *)
-From WM Require Import Base.Prelude Dedup.Model Dedup.MonProofs Dedup.Proofs.
+From WM Require Import Base.Prelude Dedup.Model Dedup.MonProofs Dedup.Proofs Dedup.ApiProofs.
 Local Open Scope Z_scope.
 
 (** The lookup and the insert of different goroutines never interleave: at most one thread is
@@ -81,6 +81,18 @@ Theorem C14_two_new_are_separated : forall (w t0 : Z) roles sched a t1 m1 k n1 b
   existsb (removes k) b = true /\ n1 + w < n2.
 Proof. exact two_new_are_separated. Qed.
 Print Assumptions C14_two_new_are_separated.
+
+(** The same without looking inside: observe every call only from outside, as (key, clock
+    before the call, clock after the call, answer) — no linearisation order, no hooks.  For
+    every run, every such observation satisfies [api_ok]: two calls with one key both answered
+    "new" are more than a window apart (start of one + w < end of the other), and every
+    "duplicate" has a possible cause (a "new" call with that key that started no later than the
+    duplicate ended).  [api_ok] is evaluated on the call intervals the harness measures. *)
+Theorem C14_api_observation_ok : forall (w t0 : Z) roles sched (obs : list acall),
+  Forall2 encloses obs (trace_calls (rev (trace (run w (init t0 roles) sched)))) ->
+  api_ok w obs = true.
+Proof. exact api_observation_ok. Qed.
+Print Assumptions C14_api_observation_ok.
 
 (** Accepted again after expiry — what the code guarantees about clean-up timing: expiry is
     NOT checked by IsDuplicate; a key stays remembered until a sweep whose tick time T is
@@ -253,4 +265,11 @@ Example C14_monitor_rejects :
   /\ mon_ok 10 0 [eins 0 1 5 0; esweep 4 20 30 []] = false
   /\ mon_ok 10 0 [eins 0 1 5 0; esweep 4 20 30 [5]%nat; edup 1 2 5 31] = false
   /\ mon_ok 10 0 [eins 0 1 5 0; esweep 4 20 30 [5]%nat; eins 1 2 5 31] = true.
+Proof. vm_compute. repeat split. Qed.
+
+Example C14_api_rejects :
+  api_ok 10 [AC 5 0 1 false; AC 5 4 6 false] = false
+  /\ api_ok 10 [AC 5 0 1 false; AC 5 4 12 false] = true
+  /\ api_ok 10 [AC 5 0 1 false; AC 6 0 1 true] = false
+  /\ api_ok 10 [AC 5 3 4 true; AC 5 0 9 false] = true.
 Proof. vm_compute. repeat split. Qed.
